@@ -158,6 +158,7 @@ func (en *Engine) VerifyFunction(fn *ssa.Function, fc *FuncContract, pc *PkgCont
 	for k, v := range st.mem {
 		entryMem[k] = v
 	}
+	st.persist = append([]*Term(nil), st.facts...)
 	sc.oldMem = entryMem
 	fr.spec = sc
 	paramRegions := map[*Region]bool{}
